@@ -57,10 +57,13 @@ def rand_physical(g, typ, kind, m):
 
 
 def start_point(g, typ, kind, m, cls):
-    """near: physical + noise 1e-3 (as produced by linear estimation); far: norm up to 1e2; physical; boundary"""
+    """near: physical + noise 1e-3 (as produced by linear estimation); far: norm up to 1e2; physical; lowpurity"""
     c, _ = system(kind)
     if cls == "physical":
         return rand_physical(g, typ, kind, m)
+    if cls == "lowpurity":
+        # noisy linear estimate of a rank-deficient mixed state: trace one, purity <= 1/2, slightly non-PSD
+        return gen_param(g, typ, kind, m, 1.0, "lowpurity")
     if cls == "near":
         x = rand_physical(g, typ, kind, m)
         return x + np.round(g.standard_normal(x.shape) * 2 ** 10) / 2 ** 20
@@ -192,6 +195,11 @@ def correspondence(ctx):
         for mi in (1, 2, 3):
             x0 = start_point(g, typ, "q", 2, "far")
             corr_case(ctx, drv, pend, typ, "q", 2, x0, False, ORDERS[mi % 2], 1e-14, ("obj", "var")[mi % 2], mi, "far-maxiter")
+    # dim > 2 gates at the variable level (flat index arithmetic of the equality projection), few sweeps; low-purity 2-qubit states
+    for flag, order in ((False, "eq_ineq"), (True, "ineq_eq")):
+        corr_case(ctx, drv, pend, "Gate", "t", 1, start_point(g, "Gate", "t", 1, "near"), flag, order, 1e-8, "var", 2, "near-maxiter")
+    for level, order in (("obj", "eq_ineq"), ("var", "ineq_eq")):
+        corr_case(ctx, drv, pend, "State", "qq", 1, start_point(g, "State", "qq", 1, "lowpurity"), False, order, 1e-10, level, 1000, "lowpurity")
     if not ctx.quick:
         for order in ORDERS:
             corr_case(ctx, drv, pend, "Gate", "t", 1, start_point(g, "Gate", "t", 1, "near"), False, order, 1e-8, "var", 4, "near")
@@ -398,6 +406,20 @@ def oracle(ctx, volume=1):
                     k += 1
                     x0 = start_point(g, typ, kind, m, cls)
                     check_start(ctx, g, typ, kind, m, x0, flag, eps, cls, 1000 if cls != "far" else 400, 4 if ctx.quick else 8)
+    # fixed families that every tier must contain: dim > 2 gates at both levels with both flags; low-purity slightly non-PSD
+    # states of dim > 2 (inside the 'Bloch ball' but not PSD)
+    g2 = ctx.npgen(33)
+    extra = [("Gate", "t", "near", False, 1e-8), ("Gate", "t", "near", True, 1e-8),
+             ("State", "qq", "lowpurity", False, 1e-10), ("State", "qq", "lowpurity", True, 1e-12),
+             ("State", "t", "lowpurity", False, 1e-8), ("State", "qq", "lowpurity", True, 1e-6)]
+    if not ctx.quick:
+        extra += [("Gate", "qq", "near", False, 1e-6), ("Povm", "qq", "lowpurity", True, 1e-10),
+                  ("State", "qt", "lowpurity", False, 1e-10), ("State", "tq", "lowpurity", True, 1e-10)]
+    for rep in range(volume):
+        for typ, kind, cls, flag, eps in extra:
+            m = 2 if typ in ("Povm", "MProcess") else 1
+            ctx.count(f"oracle fixed family {typ} {kind} class={cls} flag={flag}")
+            check_start(ctx, g2, typ, kind, m, start_point(g2, typ, kind, m, cls), flag, eps, cls, 1000, 3)
 
 
 def search(ctx):
